@@ -1,7 +1,8 @@
 SPECIFICATION Spec
 CONSTANTS
-  Files <- MCFiles
+  FilesSrc <- MCFiles
   MConfs <- MCConfsSmall
+  UseRegister = FALSE
   Refreshers = {"r1"}
   InvalidCountries = {"A1", "ZZZ"}
   InvalidContinents = {"ZZ"}
